@@ -113,7 +113,8 @@ func (k Keeper) ToggleClient(
 	}
 
 	k.SetClientState(ctx, chainName, newClientState)
-	if err := clientState.Initialize(ctx, k.cdc, k.ClientStore(ctx, chainName), newConsensusState); err != nil {
+	// initialize the client store with the metadata of the NEW client type
+	if err := newClientState.Initialize(ctx, k.cdc, k.ClientStore(ctx, chainName), newConsensusState); err != nil {
 		return err
 	}
 	k.SetClientConsensusState(ctx, chainName, newClientState.GetLatestHeight(), newConsensusState)
